@@ -184,7 +184,10 @@ class LocalShare:
 
     def __addPackage(self, buildId, size):
         def update(f):
-            meta = json.load(f)
+            # The file is still empty if a concurrent process created it but
+            # did not get the lock yet.
+            content = f.read()
+            meta = json.loads(content) if content else {}
             meta.setdefault("pkgs", {})[asHexStr(buildId)] = size
             f.seek(0)
             f.truncate()
@@ -203,9 +206,8 @@ class LocalShare:
             except FileNotFoundError:
                 # Unusual case: does not exist yet -> create atomically.
                 try:
-                    with OpenLocked(fn, "x", True) as f:
-                        json.dump({"pkgs" : {asHexStr(buildId) : size}}, f)
-                        return size
+                    with OpenLocked(fn, "x+", True) as f:
+                        return update(f)
                 except FileExistsError:
                     # Almost impossible case: lost creation race -> update
                     with OpenLocked(fn, "r+", True) as f:
@@ -337,7 +339,8 @@ class LocalShare:
             # and usage of packages.
             candidates = []
             with OpenLocked(os.path.join(self.__path, "repo.json"), "r+", True) as rf:
-                repoMeta = json.load(rf)
+                content = rf.read()
+                repoMeta = json.loads(content) if content else {}
 
                 # Scan all packages
                 for pkg, size in repoMeta.get("pkgs", {}).items():
